@@ -17,6 +17,10 @@ import (
 	"github.com/getsentry/sentry-go"
 )
 
+// legacyToken marks the unsafe message of a barrier injected under the
+// library's previous type name.
+const legacyToken = "TKUlegacyQ"
+
 // taintSetup is the scenario shared by C03, C06 and C12: a tree whose
 // strings carry unique tokens, observed at the origin and after every
 // delivery along a route.
@@ -49,6 +53,8 @@ func newTaint(t *tape.Tape, tier Tier, res *Result, alpha gen.Alphabet, allowUnk
 	ts.sim.At(0)
 	ts.e0 = gen.Build(ts.spec)
 	ts.tokens = ts.spec.Tokens()
+	// (the plain message of a previous-version barrier injected on the wire)
+	ts.tokens = append(ts.tokens, gen.Token{Tok: legacyToken, Kind: gen.LHandledMsg})
 	res.Desc.Tree = ts.spec.Expr()
 	res.Kinds = kindsOf(ts.spec)
 	m1, p := obs.Encode(ts.e0)
@@ -95,6 +101,27 @@ func newTaint(t *tape.Tape, tier Tier, res *Result, alpha gen.Alphabet, allowUnk
 			}
 			var nodes []*world.WireNode
 			world.WalkWire(enc, false, func(w *world.WireNode) { nodes = append(nodes, w) })
+			// a barrier may arrive from a peer running the previous version of
+			// the library: other type name, and a plain (not redactable) message
+			var barriersOnWire []*world.WireNode
+			for _, n := range nodes {
+				if strings.HasSuffix(n.Family(), "barriers.barrierErr") && n.Leaf != nil {
+					barriersOnWire = append(barriersOnWire, n)
+				}
+			}
+			if len(barriersOnWire) > 0 && t.Bool(1, 2) {
+				b := barriersOnWire[t.Draw(len(barriersOnWire))]
+				old := strings.TrimSuffix(b.Family(), "barrierErr") + "barrierError"
+				b.Leaf.Details.OriginalTypeName = old
+				b.Leaf.Details.ErrorTypeMark.FamilyName = old
+				b.Leaf.Message = legacyToken + " " + hostileWire[t.Draw(len(hostileWire))]
+				if out, merr := enc.Marshal(); merr == nil {
+					ts.sim.Stats.Faults["barrier=previous-version"]++
+					res.Desc.Faults = append(res.Desc.Faults, fmt.Sprintf("barrier=previous-version@hop%d:%s", m.Hop, b.Path))
+					return out
+				}
+				return m.Data
+			}
 			w := nodes[t.Draw(len(nodes))]
 			hs := hostileWire[t.Draw(len(hostileWire))]
 			var what string
